@@ -70,7 +70,7 @@ pub struct RunSpec {
 
 impl RunSpec {
     pub fn base(policy: Policy) -> RunSpec {
-        RunSpec { policy, devs: vec![], faults: vec![], kill_at: None, step_limit: 200_000 }
+        RunSpec { policy, devs: vec![], faults: vec![], kill_at: None, step_limit: 60_000 }
     }
 }
 
@@ -220,6 +220,8 @@ pub struct Launch {
     pub stderr_path: String,
     /// watchdog slot
     pub slot: usize,
+    /// drop to this (uid, gid) before exec
+    pub run_as: Option<(u32, u32)>,
 }
 
 // ---------------------------------------------------------------------------------------------
@@ -1526,6 +1528,12 @@ pub fn execute(l: &Launch, spec: &RunSpec) -> Result<RunResult, String> {
             if let Some(n) = l.nofile {
                 let rl = libc::rlimit { rlim_cur: n, rlim_max: n };
                 libc::setrlimit(libc::RLIMIT_NOFILE, &rl);
+            }
+            if let Some((u, g)) = l.run_as {
+                libc::setgroups(0, std::ptr::null());
+                if libc::setgid(g) != 0 || libc::setuid(u) != 0 {
+                    libc::_exit(125);
+                }
             }
             libc::personality(0x0040000); // ADDR_NO_RANDOMIZE
             libc::ptrace(libc::PTRACE_TRACEME, 0, 0, 0);
